@@ -292,7 +292,19 @@ func bfs(t *testing.T, spec *bfsSpec, res map[string]*vh.Result, main string, de
 				}
 				if len(o.probs) > 0 {
 					record(h, o.probs)
-					continue
+					// a state in which this check's own property is violated (or
+					// the client has crashed or hung) is not expanded; a finding
+					// that belongs to another property's monitor does not cut
+					// this property's exploration short
+					cut := false
+					for _, p := range o.probs {
+						if p.Prop == main || strings.HasPrefix(p.Key, "C05/panic") || strings.HasPrefix(p.Key, "C05/loop-hangs") {
+							cut = true
+						}
+					}
+					if cut {
+						continue
+					}
 				}
 				if !seen[o.canon] {
 					seen[o.canon] = true
